@@ -54,6 +54,19 @@ def runOp (op : String) (g : GeoBox) (args : List String) : Option String :=
     let inpix ← parseBool? inpix
     let pts ← parseList? parsePt? pts
     pure (fmtRes fmtGB (cropRegion g inpix pts))
+  | "align", [] => pure (fmtRes fmtPt (alignment g))
+  | "bnd", [n] => do
+    let n ← parseNat? n
+    pure (fmtList fmtPtS (boundary g n))
+  | "encl", [pts] => do
+    let pts ← parseList? parsePt? pts
+    pure (fmtRes fmtGB (enclosing g pts))
+  | "gcps", [pts] => do
+    let pts ← parseList? parsePt? pts
+    pure (fmtRes (fun l => fmtList (fun (cp : Pt × Pt) => fmtPtS cp.1) l) (gcpGcps g (pts.map (fun q => (q, q)))))
+  | "mapb", [] =>
+    let m := mapBounds g
+    pure s!"{fmtRat m.1.1} {fmtRat m.1.2} {fmtRat m.2.1} {fmtRat m.2.2}"
   | "crop1", [s] => do
     let s ← parsePIdx? s
     pure (fmtGB (crop g (.one s)))
